@@ -866,9 +866,18 @@ type ReorderCase struct {
 	Window int   `json:"window"` // 1..64; every jitter / dup offset is < Window
 	Jitter []int `json:"jitter"`
 	Dups   []Dup `json:"dups"`
+	// duplicate storm: every StormEvery-th packet (0 = none) is delivered
+	// StormCopies more times, StormOff positions after its place
+	StormEvery  int `json:"storm_every,omitempty"`
+	StormCopies int `json:"storm_copies,omitempty"`
+	StormOff    int `json:"storm_off,omitempty"`
 }
 
 const maxWindow = 64
+
+// listSlack: smallest generated margin between the most packets a conforming
+// container ever has to cache (maxFrag+window-2) and the list size.
+const listSlack = 2
 
 func genReorder(t *rapid.T) ReorderCase {
 	var c ReorderCase
@@ -876,7 +885,14 @@ func genReorder(t *rapid.T) ReorderCase {
 	c.Limit = rapid.OneOf(rapid.Just(1200), rapid.Just(1200), limitGen).Draw(t, "limit")
 	c.Clock = clockGen(c.Codec).Draw(t, "clock")
 	c.StartTS = rapid.OneOf(rapid.SampledFrom([]uint32{0, 0xFFFFFF00, 0xFFFFFFFF}), rapid.Uint32()).Draw(t, "startTs")
+	// shape "small": units of at most 7 packets and a window <= 8, so that the
+	// reorder list can be as small as 8..64 entries; storm: many duplicates
+	small := rapid.IntRange(0, 2).Draw(t, "small") == 0
+	storm := rapid.IntRange(0, 2).Draw(t, "storm") == 0
 	nframes := rapid.IntRange(1, 8).Draw(t, "nframes")
+	if storm {
+		nframes = rapid.IntRange(3, 10).Draw(t, "nframesStorm")
+	}
 	maxLen := 24 * 1024
 	if pbt.Thorough() {
 		maxLen = 120 * 1024
@@ -885,6 +901,14 @@ func genReorder(t *rapid.T) ReorderCase {
 		if m := 400 * (c.Limit - fuOverhead(c.Codec)); m < maxLen {
 			maxLen = m
 		}
+	}
+	// per: unit payload bytes one fragment carries at most
+	per := c.Limit - 4
+	if isVideo(c.Codec) {
+		per = c.Limit - fuOverhead(c.Codec)
+	}
+	if small {
+		maxLen = hdrLen(c.Codec) + 6*per
 	}
 	for f := 0; f < nframes; f++ {
 		var rf RF
@@ -900,9 +924,16 @@ func genReorder(t *rapid.T) ReorderCase {
 			u.H0, u.H1 = genHeader(t, c.Codec)
 			switch c.Codec {
 			case "avc", "hevc":
-				u.Len = unitLenGen(c.Codec, c.Limit, maxLen).Draw(t, "len")
+				if storm && rapid.Bool().Draw(t, "fewFragments") {
+					u.Len = rapid.IntRange(c.Limit+1, hdrLen(c.Codec)+6*per).Draw(t, "lenFew")
+				} else {
+					u.Len = unitLenGen(c.Codec, c.Limit, maxLen).Draw(t, "len")
+				}
 			case "aac":
 				u.Len = rapid.OneOf(rapid.IntRange(1, 700), rapid.IntRange(1, 8184), rapid.SampledFrom([]int{1, 2, 8184})).Draw(t, "aacLen")
+				if small && u.Len > 6*per {
+					u.Len = 6 * per
+				}
 			default:
 				u.Len = rapid.OneOf(rapid.SampledFrom([]int{1, 160, 320}), rapid.IntRange(1, 1500)).Draw(t, "rawLen")
 			}
@@ -917,6 +948,9 @@ func genReorder(t *rapid.T) ReorderCase {
 					if min := u.Len/300 + 1; p.Chunk < min {
 						p.Chunk = min
 					}
+					if min := u.Len/6 + 1; small && p.Chunk < min {
+						p.Chunk = min
+					}
 				}
 			}
 			rf.Plans = append(rf.Plans, p)
@@ -924,6 +958,9 @@ func genReorder(t *rapid.T) ReorderCase {
 		c.Frames = append(c.Frames, rf)
 	}
 	c.Window = rapid.OneOf(rapid.SampledFrom([]int{1, 2, 3, 8, 63, 64}), rapid.IntRange(1, maxWindow)).Draw(t, "window")
+	if small {
+		c.Window = rapid.IntRange(1, 8).Draw(t, "windowSmall")
+	}
 	nj := rapid.IntRange(1, 97).Draw(t, "njitter")
 	dense := rapid.IntRange(0, 3).Draw(t, "jitterDensity")
 	for i := 0; i < nj; i++ {
@@ -937,6 +974,11 @@ func genReorder(t *rapid.T) ReorderCase {
 	for i := 0; i < nd; i++ {
 		c.Dups = append(c.Dups, Dup{At: rapid.IntRange(0, 4000).Draw(t, "dupAt"), Off: rapid.IntRange(0, c.Window-1).Draw(t, "dupOff")})
 	}
+	if storm {
+		c.StormEvery = rapid.SampledFrom([]int{1, 1, 2, 3, 5}).Draw(t, "stormEvery")
+		c.StormCopies = rapid.IntRange(1, 3).Draw(t, "stormCopies")
+		c.StormOff = rapid.OneOf(rapid.Just(0), rapid.IntRange(0, c.Window-1)).Draw(t, "stormOff")
+	}
 	// sequence numbers: make the wrap fall inside the stream most of the time
 	_, builtPkts := c.build()
 	npk := len(builtPkts)
@@ -949,7 +991,11 @@ func genReorder(t *rapid.T) ReorderCase {
 	).Draw(t, "firstSeq"))
 	// reorder list: lal's own size or just enough for the longest unit + window
 	_, maxFrag := c.maxFragments()
-	c.ListMax = rapid.OneOf(rapid.Just(lalListMax), rapid.IntRange(maxFrag+c.Window+8, maxFrag+c.Window+200)).Draw(t, "listMax")
+	// (at most maxFrag-1 packets of an unfinished unit plus window-1 packets
+	// behind a gap are ever cached, so maxFrag+window+listSlack never fills up)
+	c.ListMax = rapid.OneOf(rapid.Just(lalListMax),
+		rapid.IntRange(maxFrag+c.Window+listSlack, maxFrag+c.Window+24),
+		rapid.IntRange(maxFrag+c.Window+listSlack, maxFrag+c.Window+200)).Draw(t, "listMax")
 	return c
 }
 
@@ -1036,6 +1082,13 @@ func (c ReorderCase) schedule(n int) []arrival {
 		i := d.At % n
 		arr = append(arr, arrival{key: i + d.Off, idx: i, dup: true})
 	}
+	if c.StormEvery > 0 {
+		for i := 0; i < n; i += c.StormEvery {
+			for k := 0; k < c.StormCopies; k++ {
+				arr = append(arr, arrival{key: i + c.StormOff, idx: i, dup: true})
+			}
+		}
+	}
 	sort.SliceStable(arr, func(a, b int) bool { return arr[a].key < arr[b].key })
 	return arr
 }
@@ -1056,6 +1109,9 @@ func (c ReorderCase) validate() {
 		if d.At < 0 || d.Off < 0 || d.Off >= c.Window {
 			bad("dup %+v outside the window %d", d, c.Window)
 		}
+	}
+	if c.StormEvery < 0 || c.StormCopies < 0 || c.StormCopies > 8 || c.StormOff < 0 || c.StormOff >= c.Window {
+		bad("storm every %d copies %d off %d (window %d)", c.StormEvery, c.StormCopies, c.StormOff, c.Window)
 	}
 	for _, f := range c.Frames {
 		if len(f.Units) == 0 || len(f.Plans) != len(f.Units) {
@@ -1087,7 +1143,7 @@ func runReorder(c ReorderCase) *pbt.Violation {
 			maxFrag = units[i].Packets
 		}
 	}
-	if c.ListMax < maxFrag+c.Window+8 {
+	if c.ListMax < maxFrag+c.Window+listSlack {
 		panic(pbt.HarnessError{Msg: fmt.Sprintf("case outside the generator's domain: list_max %d too small for %d fragments + window %d", c.ListMax, maxFrag, c.Window)})
 	}
 	raws := make([][]byte, len(pkts))
@@ -1137,9 +1193,56 @@ func runReorder(c ReorderCase) *pbt.Violation {
 		}
 	}
 	if len(pert) != len(inOrder) {
-		return pbt.V("reorder/output-count", "perturbed delivery (window %d, %d duplicates) produced %d AvPackets, in-order delivery %d", c.Window, len(c.Dups), len(pert), len(inOrder))
+		return pbt.V("reorder/output-count", "perturbed delivery (window %d, %d duplicates, list size %d) produced %d AvPackets, in-order delivery %d", c.Window, len(c.schedule(len(raws)))-len(raws), c.ListMax, len(pert), len(inOrder))
 	}
 	return nil
+}
+
+// cachedDuplicates models a conforming container (consume every unit as soon
+// as all of its packets and everything before it have arrived) and counts the
+// arrivals of a packet that is already cached and not yet consumed.
+func (c ReorderCase) cachedDuplicates(pkts []*rtpref.Packet, sched []arrival) int {
+	n := len(pkts)
+	units, err := rtpref.Depacketize(rtpref.NewDepacketizer(rtpref.Codec(c.Codec)), pkts)
+	if err != nil {
+		panic(pbt.HarnessError{Msg: "reference depacketiser rejects the reference packetiser's output: " + err.Error()})
+	}
+	endOf := make([]int, n) // index of the last packet of the unit(s) packet i belongs to
+	for _, u := range units {
+		first := int(uint16(u.FirstSeq - c.FirstSeq))
+		last := int(uint16(u.LastSeq - c.FirstSeq))
+		for i := first; i <= last && i < n; i++ {
+			endOf[i] = last
+		}
+	}
+	arrived := make([]bool, n)
+	done := -1
+	cached := 0
+	for _, a := range sched {
+		switch {
+		case a.idx <= done:
+			// stale
+		case arrived[a.idx]:
+			cached++
+		default:
+			arrived[a.idx] = true
+		}
+		for done+1 < n {
+			e := endOf[done+1]
+			ok := true
+			for i := done + 1; i <= e; i++ {
+				if !arrived[i] {
+					ok = false
+					break
+				}
+			}
+			if !ok {
+				break
+			}
+			done = e
+		}
+	}
+	return cached
 }
 
 func classifyReorder(c ReorderCase) (bool, []string) {
@@ -1198,6 +1301,26 @@ func classifyReorder(c ReorderCase) (bool, []string) {
 		pos++
 	}
 	perturbed := displaced > 0 || dups > 0
+	// duplicates that arrive while their original is still cached (unit not
+	// complete yet, or waiting behind a gap) - the container must ignore them
+	// without any effect on its bookkeeping
+	cached := c.cachedDuplicates(pkts, sched)
+	if cached > 0 {
+		labels = append(labels, "dup-of-cached-packet")
+	}
+	if c.StormEvery > 0 {
+		labels = append(labels, "dup-storm")
+	}
+	slack := c.ListMax - maxFrag - c.Window
+	if cached >= slack+2 && anyFrag {
+		labels = append(labels, "cached-dups>=list-slack")
+		if c.ListMax <= 64 {
+			labels = append(labels, "cached-dups>=list-slack,list<=64")
+		}
+	}
+	if c.ListMax <= 64 {
+		labels = append(labels, "list<=64")
+	}
 	if displaced > 0 {
 		labels = append(labels, "reordered")
 	}
